@@ -1,7 +1,172 @@
-use serde_json::Value;
+//! Adapters for state resolution (C06, C07).
 
-use crate::OpResult;
+use std::{
+    collections::{hash_map::DefaultHasher, BTreeMap, BTreeSet, HashMap, HashSet},
+    hash::{Hash, Hasher},
+    sync::{Arc, Mutex},
+};
 
-pub fn dispatch(_op: &str, _cmd: &Value) -> Option<OpResult> {
-    None
+use js_int::Int;
+use ruma_common::{EventId, MilliSecondsSinceUnixEpoch, OwnedEventId};
+use ruma_events::StateEventType;
+use ruma_state_res::{lexicographical_topological_sort, resolve, StateMap};
+use serde_json::{json, Value};
+
+use crate::{ops_json::rules_for, pev::PEv, s, OpResult};
+
+type SetSpec = Vec<(String, String, OwnedEventId)>;
+
+fn oid(v: &Value) -> Result<OwnedEventId, String> {
+    OwnedEventId::try_from(v.as_str().unwrap_or("")).map_err(|e| format!("harness: event id {v}: {e}"))
+}
+
+/// One resolution with freshly built containers (fresh per-map hasher keys), the argument order
+/// permuted by `perm_seed`, and every `fetch_event` argument logged.
+fn resolve_once(
+    rules: &ruma_common::room_version_rules::AuthorizationRules,
+    store: &HashMap<OwnedEventId, PEv>,
+    sets: &[SetSpec],
+    chains: &[Vec<OwnedEventId>],
+    perm_seed: u64,
+) -> (Result<BTreeMap<(String, String), String>, String>, u64, usize) {
+    let mut order: Vec<usize> = (0..sets.len()).collect();
+    // small deterministic shuffle
+    let mut x = perm_seed.wrapping_mul(6364136223846793005).wrapping_add(1442695040888963407);
+    for i in (1..order.len()).rev() {
+        x = x.wrapping_mul(6364136223846793005).wrapping_add(1442695040888963407);
+        let j = (x >> 33) as usize % (i + 1);
+        order.swap(i, j);
+    }
+    let state_sets: Vec<StateMap<OwnedEventId>> = order
+        .iter()
+        .map(|&i| {
+            let mut m: StateMap<OwnedEventId> = HashMap::new();
+            for (t, k, id) in &sets[i] {
+                m.insert((StateEventType::from(t.as_str()), k.clone()), id.clone());
+            }
+            m
+        })
+        .collect();
+    let auth_chains: Vec<HashSet<OwnedEventId>> =
+        order.iter().map(|&i| chains[i].iter().cloned().collect::<HashSet<_>>()).collect();
+    let trace: Mutex<(DefaultHasher, usize)> = Mutex::new((DefaultHasher::new(), 0));
+    let fetch = |id: &EventId| -> Option<PEv> {
+        let mut t = trace.lock().unwrap();
+        id.as_str().hash(&mut t.0);
+        t.1 += 1;
+        store.get(id).cloned()
+    };
+    let res = resolve(rules, state_sets.iter(), auth_chains, fetch);
+    let (h, n) = trace.into_inner().unwrap();
+    (
+        res.map(|m| m.into_iter().map(|((t, k), id)| ((t.to_string(), k), id.to_string())).collect())
+            .map_err(|e| e.to_string()),
+        h.finish(),
+        n,
+    )
+}
+
+fn resolve_many(cmd: &Value) -> OpResult {
+    let rules = rules_for(s(cmd, "version")?)?.authorization;
+    let mut store: HashMap<OwnedEventId, PEv> = HashMap::new();
+    for ev in cmd.get("store").and_then(Value::as_array).ok_or("harness: store")? {
+        let e = PEv::from_json(ev)?;
+        store.insert(e.0.event_id.clone(), e);
+    }
+    let mut sets: Vec<SetSpec> = vec![];
+    for set in cmd.get("state_sets").and_then(Value::as_array).ok_or("harness: state_sets")? {
+        let mut v = vec![];
+        for e in set.as_array().ok_or("harness: state set")? {
+            v.push((
+                e.get(0).and_then(Value::as_str).ok_or("harness: set type")?.to_owned(),
+                e.get(1).and_then(Value::as_str).ok_or("harness: set key")?.to_owned(),
+                oid(e.get(2).ok_or("harness: set id")?)?,
+            ));
+        }
+        sets.push(v);
+    }
+    let mut chains: Vec<Vec<OwnedEventId>> = vec![];
+    for c in cmd.get("auth_chains").and_then(Value::as_array).ok_or("harness: auth_chains")? {
+        chains.push(c.as_array().ok_or("harness: chain")?.iter().map(oid).collect::<Result<_, _>>()?);
+    }
+    let reps = cmd.get("reps").and_then(Value::as_u64).unwrap_or(1);
+    let threads = cmd.get("threads").and_then(Value::as_u64).unwrap_or(1).max(1);
+    let permute = crate::b(cmd, "permute");
+    let seed = cmd.get("seed").and_then(Value::as_u64).unwrap_or(0);
+
+    let store = Arc::new(store);
+    let sets = Arc::new(sets);
+    let chains = Arc::new(chains);
+    let rules = Arc::new(rules);
+    type Out = (BTreeSet<String>, BTreeSet<u64>, u64, usize);
+    let mut handles = vec![];
+    for t in 0..threads {
+        let (store, sets, chains, rules) = (store.clone(), sets.clone(), chains.clone(), rules.clone());
+        handles.push(std::thread::Builder::new().stack_size(2 * 1024 * 1024).spawn(move || -> Out {
+            let mut results = BTreeSet::new();
+            let mut traces = BTreeSet::new();
+            let mut fetches = 0usize;
+            for r in 0..reps {
+                let perm_seed = if permute { seed ^ (t << 32) ^ r } else { 0 };
+                let (res, trace, n) = resolve_once(&rules, &store, &sets, &chains, if permute { perm_seed.wrapping_add(1) } else { 0 });
+                results.insert(match res {
+                    Ok(m) => serde_json::to_string(&m.into_iter().map(|((t, k), id)| (t, k, id)).collect::<Vec<_>>()).unwrap(),
+                    Err(e) => format!("ERR:{e}"),
+                });
+                traces.insert(trace);
+                fetches += n;
+            }
+            (results, traces, reps, fetches)
+        }).map_err(|e| format!("harness: spawn: {e}"))?);
+    }
+    let mut results = BTreeSet::new();
+    let mut traces = BTreeSet::new();
+    let mut runs = 0;
+    let mut fetches = 0;
+    for h in handles {
+        match h.join() {
+            Ok((r, t, n, f)) => {
+                results.extend(r);
+                traces.extend(t);
+                runs += n;
+                fetches += f;
+            }
+            Err(p) => std::panic::resume_unwind(p),
+        }
+    }
+    Ok(json!({
+        "results": results.into_iter().collect::<Vec<_>>(),
+        "distinct_fetch_traces": traces.len(),
+        "runs": runs,
+        "fetch_calls": fetches,
+    }))
+}
+
+fn lexico(cmd: &Value) -> OpResult {
+    let g = cmd.get("graph").and_then(Value::as_object).ok_or("harness: graph")?;
+    let mut graph: HashMap<OwnedEventId, HashSet<OwnedEventId>> = HashMap::new();
+    for (k, deps) in g {
+        let id = OwnedEventId::try_from(k.as_str()).map_err(|e| format!("harness: node {k}: {e}"))?;
+        let deps: HashSet<OwnedEventId> = deps.as_array().ok_or("harness: deps")?.iter().map(oid).collect::<Result<_, _>>()?;
+        graph.insert(id, deps);
+    }
+    let keys = cmd.get("keys").and_then(Value::as_object).ok_or("harness: keys")?;
+    let res = lexicographical_topological_sort(&graph, |id| {
+        let k = keys.get(id.as_str()).ok_or_else(|| ruma_state_res::Error::NotFound(id.to_owned()))?;
+        let pl = Int::try_from(k.get(0).and_then(Value::as_i64).unwrap_or(0)).unwrap_or_default();
+        let ts = js_int::UInt::try_from(k.get(1).and_then(Value::as_u64).unwrap_or(0)).unwrap_or_default();
+        Ok((pl, MilliSecondsSinceUnixEpoch(ts)))
+    });
+    Ok(match res {
+        Ok(v) => json!({"ok": v.iter().map(|i| i.to_string()).collect::<Vec<_>>()}),
+        Err(e) => json!({"err": e.to_string()}),
+    })
+}
+
+pub fn dispatch(op: &str, cmd: &Value) -> Option<OpResult> {
+    Some(match op {
+        "resolve_many" => resolve_many(cmd),
+        "lexico_topo_sort" => lexico(cmd),
+        _ => return None,
+    })
 }
